@@ -105,6 +105,15 @@ def method(ex, st, recv, name, args, kwargs, node):
                 st.ghost['draws'] = st.ghost.get('draws', 0) + 1
                 return out
             raise Unsupported('Generator.choice calling pattern')
+        if name == 'normal' and 'size' in kwargs:
+            shp = M.shape_arg(ex, st, kwargs['size'], node)
+            used('Generator.normal(size=shape) -> array of that shape with arbitrary real entries')
+            st.ghost['draws'] = st.ghost.get('draws', 0) + 1
+            if len(shp) == 3:
+                t = ex.fresh('noise', T.Core)
+                st.assume(T.d0(t) == Z(shp[0]), T.d1(t) == Z(shp[1]), T.d2(t) == Z(shp[2]))
+                return M.mk_core(t)
+            return VArr(tuple(shp), None, None)
         if name == 'shuffle':
             used('Generator.shuffle(x) -> permutes x in place (counts unchanged)')
             st.ghost['draws'] = st.ghost.get('draws', 0) + 1
